@@ -6,6 +6,7 @@ import (
 	"go/token"
 	"go/types"
 	"os"
+	"strconv"
 	"sort"
 	"strings"
 	"sync"
@@ -97,7 +98,7 @@ type fnInfo struct {
 func NewEngine(r *core.Run, cfg EngCfg) *Engine {
 	e := &Engine{r: r, prog: r.Prog, cfg: cfg, obs: map[string]*engOb{}, finfo: map[*ssa.Function]*fnInfo{},
 		tables: map[*ssa.Global]*[256]bool{}, bmaps: map[*ssa.Global]map[int64]int64{}, smaps: map[*ssa.Global][]int64{},
-		atLike: map[*ssa.Function]int{}, infoBusy: map[*ssa.Function]bool{}, summ: map[*ssa.Function]map[string][]summary{}, usesLCache: map[*ssa.Function]bool{}, rwCache: map[*ssa.Function]*heapSet{}, maxSteps: 4_000_000, loopsSeen: map[string]bool{}, failExits: map[*ssa.Function][]failExit{}}
+		atLike: map[*ssa.Function]int{}, infoBusy: map[*ssa.Function]bool{}, summ: map[*ssa.Function]map[string][]summary{}, usesLCache: map[*ssa.Function]bool{}, rwCache: map[*ssa.Function]*heapSet{}, maxSteps: envInt("PCHECK_MAXSTEPS", 12_000_000), loopsSeen: map[string]bool{}, failExits: map[*ssa.Function][]failExit{}}
 	e.reach = sharedReach(r.Prog)
 	return e
 }
@@ -2062,4 +2063,13 @@ func cmpAll(lo, hi int, op token.Token, k int) int {
 		return -1
 	}
 	return 0
+}
+
+func envInt(name string, def int) int {
+	if s := os.Getenv(name); s != "" {
+		if n, err := strconv.Atoi(s); err == nil && n > 0 {
+			return n
+		}
+	}
+	return def
 }
